@@ -15,7 +15,7 @@ def check_case(case):
         from ..muxsys import mux_spec
         r = Res()
         spec = mux_spec([tuple(x) for x in case["inputs"]], case["pal"], case["rs_list"], below="deep", pol=case["pol"])
-        phys.solve_and_check(r, spec, ("C02",), case["ta"])
+        phys.solve_and_check(r, spec, ("C02",), case["ta"], holes=case.get("holes"))
     elif case["fam"] == "phase":
         r = Res()
         spec = spec_from_forest(case["f"], case["pal"], case["pol"], case["srs"])
@@ -79,6 +79,8 @@ def gen_cases(tier):
         for k in (2, 3):
             for inputs in itertools.product(INPUT_OPTS if k == 2 or tier != "quick" else INPUT_OPTS[:4], repeat=k):
                 yield dict(fam="mux", inputs=[list(x) for x in inputs], pal=pal, rs_list=(k == 3), pol=1, srs=0.0, n=k, ta=25.0)
+                # the same system reached through an edit history (a chain element may get a LOWER node index than its own source)
+                yield dict(fam="mux", inputs=[list(x) for x in inputs], pal=pal, rs_list=(k == 3), pol=1, srs=0.0, n=k, ta=25.0, holes="analysed")
         for n1 in (1, 2):
             for f1 in mid.iter_forests(n1):
                 for f2 in mid.iter_forests(1):
